@@ -15,8 +15,8 @@ LEVEL = "exploration"
 WATCHDOG_S = 30.0
 ASSUMPTIONS = [
     "sync scheduler; reference = the NumPy routine of the same name with the same arguments (minus chunks)",
-    "values exact for integer/bool results, allclose(rtol=1e-9, atol=1e-12) for floating arange/linspace (dask documents that a "
-    "non-integer step is evaluated per block); length, dtype, lazy shape/chunks and per-block shapes always exact",
+    "values exact for integer/bool results; for floating arange/linspace a tolerance of 8 ulps of the result dtype scaled to the value "
+    "range (dask documents that a non-integer step is evaluated per block); length, dtype, lazy shape/chunks, block shapes always exact",
     "excluded a priori: arange with an integer dtype and a fractional start/step (NumPy's own result is an artefact of its fill loop, "
     "its documentation warns about this call); empty()/empty_like() values (uninitialised by definition: shape/dtype/chunks only)",
     "a case on which NumPy raises is 'inapplicable'; NotImplementedError and the documented 'chunks must be an int or string' "
@@ -29,15 +29,19 @@ STEPS = (1, -1, 2, -2, 0.5, -0.5, 0.1, 0.3, 0.7, -0.3, 0.2, 0.25, 1.5, -0.1, -0.
 
 
 def RULE(tier):
+    q = tier == "quick"
     return (
-        f"arange: start in {STARTS} (or omitted) x stop in {STOPS} x step in {STEPS} x dtype {{None,i8,f4,f8}} x chunks {{1,2,3,5,'auto',-1, every "
-        "explicit chunking for length <= 4(quick)/6}; linspace: start/stop in {0,1,-1,0.5,5} x num 0..7 x endpoint x retstep x dtype "
-        "{None,f4,int} x chunks; eye: N 0..4 x M {None,0..4} x every k that touches the matrix +-1 x chunks {1..5,'auto'} x dtype; diag: "
-        "every 1-d v (n<=4, every chunking, dask and numpy) x k in -2..2, every 2-d v (<=3x3, every chunking) x k; diagonal: 2-d/3-d x "
-        "every offset x every axis pair (negative axes too) x every chunking; indices, meshgrid (1-3 inputs, every chunking, sparse, "
-        "indexing), fromfunction, tri (N,M<=4, every k, dtype) and ones/zeros/full/empty + *_like (shape/dtype/chunks overrides) x every "
-        "chunks argument (ints, tuples, explicit chunkings, 'auto', -1, dict). Oracle: NumPy's values, dtype and shape; chunks sum to the "
-        "shape and every block has its declared shape. non-trivial = result has >= 2 blocks."
+        f"arange: start in {STARTS} or omitted x stop in {STOPS} x step in {STEPS} (thorough: 3+3+4 more values) with length <= {12 if q else 40} x "
+        f"dtype {{None,i8,f4,f8}} x chunks {{1,2,3,5,'auto',-1}} + EVERY explicit chunking for length <= {5 if q else 6}; linspace: start/stop in "
+        f"{{0,1,-1,0.5,5,0.1,-0.7}} x num 0..{8 if q else 10} x endpoint x retstep x dtype {{None,f4,i8}} x the same chunks; eye: N 0..{5 if q else 7} x M "
+        f"{{None,0..{6 if q else 8}}} x every k touching the matrix +-1 x chunks {{1..6,'auto'}} x dtype; diag: every 1-d v (n<={5 if q else 6}, every chunking, dask "
+        "and numpy input) x k in -3..3, 2-d v up to 4x4 x every chunking x every k; diagonal: 2-d up to 4x4 and 3-d x every offset x axis "
+        "pairs (negative and swapped too) x every chunking; indices (10 dimension tuples x dtype), meshgrid (1-3 inputs of length <= 3, every "
+        "chunking, sparse, indexing), fromfunction, tri (N<=4, M<=5, every k, 3 dtypes), ones/zeros/full/empty (11 shapes incl. 0-d and "
+        "empty axes, dtype inference for full) and ones/zeros/full/empty_like (dask input in every chunking and numpy input; dtype, shape and "
+        "chunks overrides) x every chunks argument (ints, per-axis tuples, every explicit chunking, 'auto', -1, dict). Oracle: NumPy's "
+        "values (a few ulps for float arange/linspace), dtype and shape; chunks sum to the shape; every block has its declared shape; "
+        "*_like inherits the chunks of a. non-trivial = result has >= 2 blocks."
     )
 
 
